@@ -110,6 +110,24 @@ func (c *Cluster) handleOffsetForLeaderEpoch(creq *clientReq) (kmsg.Response, er
 			nextEpoch := rp.LeaderEpoch + 1
 			si, mi, cur := pd.findBatchMeta(int64(nextEpoch), func(m *batchMeta) int64 { return int64(m.epoch) })
 
+			// No batch has a larger epoch. If the requested epoch is
+			// older than our current epoch, our epoch was bumped with
+			// nothing produced since: the requested epoch (or the
+			// largest epoch below it that has data) ends at the log
+			// end, as a real broker's leader epoch cache answers.
+			if cur == nil && rp.LeaderEpoch < pd.epoch {
+				for i := len(pd.segments) - 1; i >= 0 && cur == nil; i-- {
+					if idx := pd.segments[i].index; len(idx) > 0 {
+						cur = &idx[len(idx)-1]
+					}
+				}
+				if cur != nil {
+					sp.LeaderEpoch = cur.epoch
+					sp.EndOffset = pd.highWatermark
+					continue
+				}
+			}
+
 			// Requested epoch is not yet known: keep -1 returns.
 			if cur == nil {
 				sp.LeaderEpoch = -1
